@@ -403,3 +403,11 @@ static inline Toks ref_cmdargs(const Str &s)
     }
     return t;
 }
+// creader_skip: number of leading bytes that are members of `symbols`; the terminator of `symbols` is not a member
+static inline long ref_skip(const Str &s, const char *symbols)
+{
+    size_t i = 0;
+    while (i < s.size() && s[i] != '\0' && strchr(symbols, s[i]) != nullptr)
+        i++;
+    return (long)i;
+}
